@@ -8,6 +8,9 @@ package sim
 import (
 	"errors"
 	"io"
+	"io/fs"
+	"os"
+	"syscall"
 )
 
 // ErrInjected is the non-EOF failure the simulated reader/writer returns.
@@ -25,9 +28,33 @@ const (
 
 // Fault is a non-EOF read failure after Offset bytes.
 type Fault struct {
-	Offset   int  `json:"offset"`
-	Forever  bool `json:"forever"`   // false: error once, then EOF
-	WithData bool `json:"with_data"` // error returned together with the last delivered chunk (n>0, err)
+	Offset   int    `json:"offset"`
+	Forever  bool   `json:"forever"`          // false: error once, then EOF
+	WithData bool   `json:"with_data"`        // error returned together with the last delivered chunk (n>0, err)
+	Resume   bool   `json:"resume,omitempty"` // transient: after the one error the rest of the data is delivered (not used by C07)
+	Kind     string `json:"kind,omitempty"`   // which non-EOF error value (FaultKinds); "" is ErrInjected
+}
+
+// FaultKinds is the palette of non-EOF errors real deployments meet.
+var FaultKinds = []string{"", "", "unexpected-eof", "timeout", "closed-pipe", "path-error", "eintr", "no-progress"}
+
+// Err returns the error value the fault injects.
+func (f *Fault) Err() error {
+	switch f.Kind {
+	case "unexpected-eof":
+		return io.ErrUnexpectedEOF // what a torn gzip/zstd stream reports
+	case "timeout":
+		return os.ErrDeadlineExceeded // Timeout() == true
+	case "closed-pipe":
+		return io.ErrClosedPipe
+	case "path-error":
+		return &fs.PathError{Op: "read", Path: "sim", Err: syscall.EIO}
+	case "eintr":
+		return syscall.EINTR // Temporary() == true
+	case "no-progress":
+		return io.ErrNoProgress
+	}
+	return ErrInjected
 }
 
 // Plan is a delivery plan for a byte stream.
@@ -51,6 +78,7 @@ type Stream struct {
 	end   int // bytes that will ever be delivered
 	fired bool
 	done  bool // EOF (or once-error) already returned
+	ferr  error
 
 	Reads      int
 	AfterFault int   // Read calls after the fault fired
@@ -65,6 +93,7 @@ type Stream struct {
 func NewStream(data []byte, plan Plan) *Stream {
 	s := &Stream{Data: data, Plan: plan, end: len(data)}
 	if plan.Fault != nil {
+		s.ferr = plan.Fault.Err()
 		if plan.Fault.Offset < s.end {
 			s.end = plan.Fault.Offset
 		}
@@ -73,6 +102,14 @@ func NewStream(data []byte, plan Plan) *Stream {
 		}
 	}
 	return s
+}
+
+// resume lifts the barrier after a transient fault: the rest of the data follows.
+func (s *Stream) resume() {
+	s.Plan.Fault = nil
+	s.end = len(s.Data)
+	s.rem = 0
+	s.fired = false // the liveness cap counts Reads after a fault that persists
 }
 
 func (s *Stream) note(n int) {
@@ -134,7 +171,10 @@ func (s *Stream) Read(p []byte) (int, error) {
 			s.fired = true
 			s.FaultFired = true
 			s.note(n + 1000000)
-			return n, ErrInjected
+			if s.Plan.Fault.Resume {
+				s.resume()
+			}
+			return n, s.ferr
 		}
 		if s.Plan.Fault == nil && s.Plan.EOFWithData {
 			s.done = true
@@ -157,13 +197,16 @@ func (s *Stream) atEnd() (int, error) {
 		s.fired = true
 		s.FaultFired = true
 		s.note(-2)
-		return 0, ErrInjected
+		return 0, s.ferr
 	}
 	if !s.fired {
 		s.fired = true
 		s.FaultFired = true
 		s.note(-2)
-		return 0, ErrInjected
+		if s.Plan.Fault.Resume {
+			s.resume()
+		}
+		return 0, s.ferr
 	}
 	s.done = true
 	s.note(-1)
